@@ -33,7 +33,9 @@ func autoCreateMiddleware(backend system.Controller, tracer trace.Tracer) func(h
 					Bucket: ledgerName,
 				}); err != nil {
 					switch {
-					case errors.Is(err, ledger.ErrInvalidLedgerName{}):
+					case errors.Is(err, ledger.ErrInvalidLedgerName{}) ||
+						errors.Is(err, ledger.ErrInvalidBucketName{}) ||
+						errors.Is(err, system.ErrInvalidLedgerConfiguration{}):
 						api.BadRequest(w, common.ErrValidation, err)
 					default:
 						common.InternalServerError(w, r, err)
